@@ -21,28 +21,55 @@ type verifStep struct {
 	Route string            `json:"route"`
 	Plans map[string]string `json:"plans"`
 	N     int               `json:"n"`
+	Model string            `json:"model"`
 }
 
 type verifDispatchScn struct {
-	Engine  string      `json:"engine"`
-	LB      string      `json:"lb"`
-	Framing string      `json:"framing"`
-	Eps     []string    `json:"eps"`
-	Steps   []verifStep `json:"steps"`
+	Engine    string            `json:"engine"`
+	LB        string            `json:"lb"`
+	Framing   string            `json:"framing"`
+	Eps       []string          `json:"eps"`
+	Placement string            `json:"placement"`
+	Boot      map[string]string `json:"boot"`
+	EpType    string            `json:"eptype"`
+	Steps     []verifStep       `json:"steps"`
 }
 
 const verifN, verifK = 5, 2
 
+const verifOpenAICompletion = `{"id":"chatcmpl-1","object":"chat.completion","created":1700000000,"model":"m1","choices":[{"index":0,"message":{"role":"assistant","content":"hello from the backend"},"finish_reason":"stop"}],"usage":{"prompt_tokens":3,"completion_tokens":4,"total_tokens":7}}`
+const verifOpenAIStream = "data: {\"id\":\"c1\",\"object\":\"chat.completion.chunk\",\"model\":\"m1\",\"choices\":[{\"index\":0,\"delta\":{\"role\":\"assistant\",\"content\":\"hello\"},\"finish_reason\":null}]}\n\n" +
+	"data: {\"id\":\"c1\",\"object\":\"chat.completion.chunk\",\"model\":\"m1\",\"choices\":[{\"index\":0,\"delta\":{},\"finish_reason\":\"stop\"}]}\n\ndata: [DONE]\n\n"
+
+// verifPlanFor adapts the plan to the route: translated routes need an OpenAI-shaped answer.
+func verifPlanFor(route, kind string, chunked bool, burst bool) zzverif.Plan {
+	p := verifPlan(kind, chunked, burst)
+	if kind == "ok" && route == "anthropic" {
+		return zzverif.Plan{Kind: "ok", Status: 200, Chunked: chunked, Body: verifOpenAICompletion}
+	}
+	if kind == "ok" && route == "anthropic_stream" {
+		return zzverif.Plan{Kind: "ok", Status: 200, Chunked: true, Body: verifOpenAIStream, CT: "text/event-stream"}
+	}
+	return p
+}
+
 func verifPlan(kind string, chunked bool, burst bool) zzverif.Plan {
 	if burst && kind == "ok" {
 		// long enough, and slow enough, for concurrent responses to overlap inside the proxy
-		return zzverif.Plan{Kind: "ok", Status: 200, N: 60, Chunked: chunked, GapMs: 1}
+		return zzverif.Plan{Kind: "ok", Status: 200, N: 400, Chunked: chunked}
 	}
 	switch kind {
 	case "ok":
 		return zzverif.Plan{Kind: "ok", Status: 200, N: verifN, Chunked: chunked}
 	case "http":
 		return zzverif.Plan{Kind: "ok", Status: 500, Chunked: chunked, Body: `{"error":{"message":"backend exploded","type":"server_error"}}`}
+	case "http_big":
+		// an error page larger than any "small error body" assumption
+		return zzverif.Plan{Kind: "ok", Status: 503, Chunked: chunked,
+			Body: `{"error":{"message":"` + strings.Repeat("overloaded ", 2000) + `","type":"server_error"}}`}
+	case "http_alt":
+		// an error answer that is not an OpenAI error envelope
+		return zzverif.Plan{Kind: "ok", Status: 404, Chunked: chunked, Body: `{"object":"error","message":"model not found","code":404}`}
 	case "reset_after", "close_after":
 		return zzverif.Plan{Kind: kind, Status: 200, N: verifN, K: verifK, Chunked: chunked}
 	case "hdr_then_reset":
@@ -127,7 +154,11 @@ func verifClientView(res *zzverif.Resp) []any {
 		"ct", res.Header.Get("Content-Type")}
 }
 
-func verifRequestFor(route, rid string) (target string, hdrs []string, body string) {
+func verifRequestFor(route, rid, model string) (target string, hdrs []string, body string) {
+	if model == "" {
+		model = "m1"
+	}
+	defer func() { body = strings.Replace(body, `"model":"m1"`, `"model":"`+model+`"`, 1) }()
 	target = "/olla/proxy/v1/chat/completions"
 	body = fmt.Sprintf(`{"model":"m1","messages":[{"role":"user","content":"hello %s"}],"stream":false}`, rid)
 	hdrs = []string{"Content-Type: application/json", "X-Verif-Req: " + rid, "X-Custom-Thing: keep-me"}
@@ -160,6 +191,16 @@ func TestVerif_Dispatch(t *testing.T) {
 		b := tr.Block()
 		defer b.Flush()
 		opts := make([]verifEndpointOpt, len(sc.Eps))
+		modelsOf := map[string][]string{}
+		for i, name := range sc.Eps {
+			opts[i].Models = []string{"m1"}
+			if sc.Placement == "split" && i > 0 {
+				opts[i].Models = []string{"m2"}
+			}
+			opts[i].Boot = sc.Boot[name]
+			opts[i].Type = sc.EpType
+			modelsOf[name] = opts[i].Models
+		}
 		stk, err := verifBoot(sc.Engine, sc.LB, "auto", opts, nil)
 		if err != nil {
 			b.Emit("Reset", "scn", sn, "engine", sc.Engine, "eps", sc.Eps, "booted", false, "err", err.Error())
@@ -172,11 +213,18 @@ func TestVerif_Dispatch(t *testing.T) {
 			defer mu.Unlock()
 			b.Emit(name, kv...)
 		}
-		emit("Reset", "scn", sn, "engine", sc.Engine, "lb", sc.LB, "eps", sc.Eps, "booted", true)
+		emit("Reset", "scn", sn, "engine", sc.Engine, "lb", sc.LB, "eps", sc.Eps, "booted", true, "models", modelsOf)
+		for _, be := range stk.backends {
+			if sc.Boot[be.Name] == "dead" {
+				emit("Down", "e", be.Name, "d", true)
+			}
+		}
 		emit("Health", "st", stk.statuses())
 		chunked := sc.Framing == "chunked"
 		var plans sync.Map // backend name -> kind for the current step
 		var inBurst atomic.Bool
+		var curRoute atomic.Value
+		curRoute.Store("proxy")
 		for _, be := range stk.backends {
 			be := be
 			be.OnAttempt = func(r *zzverif.Recv) zzverif.Plan {
@@ -184,7 +232,7 @@ func TestVerif_Dispatch(t *testing.T) {
 				if v, ok := plans.Load(be.Name); ok {
 					kind = v.(string)
 				}
-				p := verifPlan(kind, chunked, inBurst.Load())
+				p := verifPlanFor(curRoute.Load().(string), kind, chunked, inBurst.Load())
 				pst := p.Status
 				emit("BackendRecv", "r", r.ReqID, "e", be.Name, "a", r.Attempt, "kind", kind, "pst", pst,
 					"pn", p.N, "pk", p.K, "pb", len(p.Body), "sig", verifSig(r), "gs", stk.gaugeOf(be), "target", r.Target)
@@ -212,19 +260,25 @@ func TestVerif_Dispatch(t *testing.T) {
 					}
 				}
 				route := stp.Route
+				curRoute.Store(route)
+				model := stp.Model
+				if model == "" {
+					model = "m1"
+				}
 				rids := make([]string, n)
 				for i := range rids {
 					reqNo++
 					rids[i] = fmt.Sprintf("r%d", reqNo)
-					emit("ClientSend", "r", rids[i], "route", route)
+					emit("ClientSend", "r", rids[i], "route", route, "model", model)
 				}
 				var wg sync.WaitGroup
 				for _, rid := range rids {
 					wg.Add(1)
 					go func(rid string) {
 						defer wg.Done()
-						target, hdrs, body := verifRequestFor(route, rid)
-						res := zzverif.Do(stk.addr, &zzverif.Req{Method: "POST", Target: target, Headers: hdrs, Body: []byte(body), Timeout: 25 * time.Second})
+						target, hdrs, body := verifRequestFor(route, rid, model)
+						res := zzverif.Do(stk.addr, &zzverif.Req{Method: "POST", Target: target, Headers: hdrs, Body: []byte(body),
+							Chunked: chunked, ChunkSz: 17, Timeout: 25 * time.Second})
 						// the gauge decrement and the repository write may trail the client's last byte
 						time.Sleep(15 * time.Millisecond)
 						kv := append([]any{"r", rid}, verifClientView(res)...)
